@@ -77,6 +77,24 @@ pub fn judge(src: &str, o: &mut Outcome) {
                     format!("parse error span {start}..{end} splits a character of the carried text"),
                 ));
             }
+            // what a renderer is handed: every label of the diagnostic must be readable from the source it carries
+            // (miette draws no snippet for a label it cannot read, and says nothing)
+            {
+                use miette::Diagnostic as _;
+                if let (Some(labels), Some(code)) = (e.labels(), e.source_code()) {
+                    for l in labels {
+                        let (off, len) = (l.offset(), l.len());
+                        let readable = panics::catch(|| code.read_span(l.inner(), 0, 0).is_ok()).unwrap_or(false);
+                        let inside = off + len <= e.src.len() && e.src.is_char_boundary(off) && e.src.is_char_boundary(off + len);
+                        if !readable || !inside {
+                            o.violate(Violation::new(
+                                format!("parse-error|label-outside-carried-text|{where_}"),
+                                format!("the label {off}..{} handed to the renderer cannot be read from the {} bytes of text the error carries", off + len, e.src.len()),
+                            ));
+                        }
+                    }
+                }
+            }
             // the diagnostic must be renderable against the text it carries
             let whole = tx3_lang::Error::from(e);
             match panics::catch(|| render(&whole)) {
@@ -190,7 +208,7 @@ impl Prop for C19 {
         format!(
             "every source of the C12 enumeration ({}) plus a positional sweep: each of {} offending tokens inserted at every token boundary of \
              {} multi-line bases (LF with multi-byte comments; CRLF + tabs + multi-byte comments on every line); metadata strings that pass the 64-byte limit with 2-, 3- and 4-byte characters at every offset around it. Oracle: parse error => span \
-             within the text the error carries, on char boundaries, and the error renders through miette; analysis error with a real span => \
+             within the text the error carries, on char boundaries, every label the diagnostic hands to a renderer readable from that text, and the error renders through miette; analysis error with a real span => \
              within the input, on char boundaries, and for not-in-scope the located text equals the name. Non-trivial = the front end reported \
              at least one diagnostic that was judged; distinct = distinct sources.",
             c12::C12.bound(tier),
